@@ -160,6 +160,11 @@ def run(tier):
     _generic_kernel_symbolic(chk, tier, t, h)
     _controller(chk)
     _forwarding(chk)
+    # the drivers apply the step kernels faithfully on every output grid (step = distance to the next node, dense output
+    # evaluated on the accepted segment with that segment's start time): the driver protocol of C10.d, re-filed here
+    from . import c10
+    from .common import Relabel
+    c10._d_plain_drivers(Relabel(chk, {"C10.d": "C02.c-driver"}), tier)
     return chk
 
 
